@@ -16,7 +16,6 @@ import (
 	"go/constant"
 	"go/token"
 	"go/types"
-	"sort"
 	"strings"
 
 	"golang.org/x/tools/go/ssa"
@@ -29,9 +28,10 @@ func init() {
 			"opts.ConfigDescriptor.MediaType — whenever they flow into what is pushed — were accepted by the media-type validator or are known empty; " +
 			"a 1.0 subject and a missing 1.1 artifact type are rejected before any such call; PackManifest dispatches only on the two known versions; " +
 			"(R2) the created-time helper succeeded before the manifest push and its result is what becomes Annotations; it fails iff time.Parse(RFC3339) fails; " +
-			"(R3) the bytes described (NewDescriptorFromBytes) are the bytes pushed (bytes.NewReader) in pushManifest/pushCustomEmptyConfig/pushIfNotExist, the returned " +
-			"descriptor is the pushed one, only ErrAlreadyExists is tolerated; (R4) every descriptor the packer invents (empty JSON config/layer, generated config) " +
-			"has been pushed on the same path, pushIfNotExist skips only on Exists==true; (R5) the manifest literal carries the requested config, layers, subject, " +
+			"(R3) at every execution of Pusher.Push reached from a packer (unexported helpers executed in place) the bytes described (NewDescriptorFromBytes / " +
+			"DescriptorEmptyJSON.Data) are the bytes pushed (bytes.NewReader), the manifest bytes are json.Marshal(manifest) with nil error, the returned descriptor is the " +
+			"one pushed, success is returned only if every push returned nil or ErrAlreadyExists; (R4) every descriptor the packer invents (empty JSON config/layer, " +
+			"generated config) has been pushed, or found by Exists==(true,nil), earlier on the same path; (R5) the manifest literal carries the requested config, layers, subject, " +
 			"artifact type, annotations and media type; (R6) the media-type pattern is language-equivalent to RFC 6838 restricted-name \"/\" restricted-name. " +
 			"NOT decided (not applicable to static analysis): that the stored bytes parse back to the requested values (encoding/json semantics), digest/size arithmetic, " +
 			"determinism beyond the single time source, behaviour of the caller's Pusher.",
@@ -48,25 +48,21 @@ const (
 )
 
 // c19Anchors holds the role-resolved functions.
+
+// c19Anchors holds the role-resolved functions.  Only the entry points and the
+// four packers (found by the dispatch conditions) are anchors; every other unexported helper is executed in place, so the
+// rules see Pusher.Push, json.Marshal, NewDescriptorFromBytes, time.Parse …
+// themselves, however the code between them is cut into functions.
 type c19Anchors struct {
-	packManifest, pack         *ssa.Function
-	v10, v11, rc2, artifact    *ssa.Function
-	validator                  *ssa.Function // func(string) error using a regexp
-	annot                      *ssa.Function // created-time helper (calls time.Parse)
-	manifestPusher             *ssa.Function // json.Marshal + Push
-	blobPusher                 *ssa.Function // Push of (desc, data) parameters
-	configPusher               *ssa.Function // NewDescriptorFromBytes + blobPusher, returns the descriptor
-	mpManifest, mpMedia        int           // manifestPusher parameter indexes
-	mpArtifact, mpAnnotations  int
-	bpDesc, bpData             int // blobPusher parameter indexes
-	verKey, k10, k11           string
+	packManifest, pack      *ssa.Function
+	v10, v11, rc2, artifact *ssa.Function
+	verKey, k10, k11        string
+	rfcPatterns             map[string]bool // pattern texts proved ≡ RFC 6838 (R6)
 }
 
-// inline: unexported helpers that are not role anchors are executed in place
-// (so extracting a helper from a packer does not change what the rules see).
 func (a *c19Anchors) inline(g *ssa.Function) bool {
 	switch g {
-	case a.validator, a.annot, a.manifestPusher, a.blobPusher, a.configPusher, a.v10, a.v11, a.rc2, a.artifact:
+	case a.v10, a.v11, a.rc2, a.artifact:
 		return false
 	}
 	return !token.IsExported(g.Name())
@@ -75,7 +71,7 @@ func (a *c19Anchors) inline(g *ssa.Function) bool {
 func (a *c19Anchors) paths(fn *ssa.Function) *sxResult { return sxPathsInline(fn, "c19", a.inline) }
 
 func c19ReachesPush(f *ssa.Function) bool {
-	return f != nil && inModule(f) && reachesCall(f, 3, func(n string, _ ssa.CallInstruction) bool { return n == c19NPush })
+	return f != nil && inModule(f) && reachesCall(f, 6, func(n string, _ ssa.CallInstruction) bool { return n == c19NPush })
 }
 
 func c19IsPushCall(r *sxCallRec) bool {
@@ -113,7 +109,7 @@ func c19IsNamed(t types.Type, pkgSuffix, name string) bool {
 
 func c19Resolve(c *Ctx) *c19Anchors {
 	const R = "C19.anchors"
-	a := &c19Anchors{mpManifest: -1, mpMedia: -1, mpArtifact: -1, mpAnnotations: -1, bpDesc: -1, bpData: -1}
+	a := &c19Anchors{}
 	a.packManifest = c.P.Fn("", "PackManifest")
 	a.pack = c.P.Fn("", "Pack")
 	if a.packManifest == nil || a.pack == nil {
@@ -197,96 +193,7 @@ func c19Resolve(c *Ctx) *c19Anchors {
 			return nil
 		}
 	}
-	// helpers by role among the static callees of the packers
-	callees := map[*ssa.Function]bool{}
-	var collect func(f *ssa.Function, depth int)
-	collect = func(f *ssa.Function, depth int) {
-		for _, call := range Calls(f, func(string) bool { return true }) {
-			if g := StaticCallee(call); g != nil && inModule(g) && len(g.Blocks) > 0 && !callees[g] {
-				callees[g] = true
-				if depth < sxInlineDepth {
-					collect(g, depth+1)
-				}
-			}
-		}
-	}
-	for _, P := range []*ssa.Function{a.v10, a.v11, a.rc2, a.artifact} {
-		collect(P, 0)
-	}
-	for _, P := range []*ssa.Function{a.v10, a.v11, a.rc2, a.artifact} {
-		delete(callees, P)
-	}
-	var sorted []*ssa.Function
-	for g := range callees {
-		sorted = append(sorted, g)
-	}
-	sort.Slice(sorted, func(i, j int) bool { return sorted[i].String() < sorted[j].String() })
-	for _, g := range sorted {
-		sig := g.Signature
-		switch {
-		case len(CallsTo(g, c19NMarshal)) > 0 && len(CallsTo(g, c19NPush)) > 0:
-			a.manifestPusher = g
-		case len(CallsTo(g, "time.Parse")) > 0:
-			a.annot = g
-		case sig.Params().Len() == 1 && isStringType(sig.Params().At(0).Type()) && ErrResultIndex(sig) == 0 && len(reGlobalsUsedBy(g)) > 0:
-			a.validator = g
-		case len(CallsTo(g, c19NPush)) > 0:
-			a.blobPusher = g
-		}
-	}
-	for _, g := range sorted {
-		if a.blobPusher != nil && g != a.blobPusher && len(CallsTo(g, c19NNewDesc)) > 0 && len(CallsTo(g, fnFullName(a.blobPusher))) > 0 {
-			a.configPusher = g
-		}
-	}
-	for what, f := range map[string]*ssa.Function{"manifest pusher (json.Marshal + Pusher.Push)": a.manifestPusher,
-		"created-time helper (calls time.Parse)":                           a.annot,
-		"media type validator (func(string) error matching a regexp)":      a.validator,
-		"blob pusher (Pusher.Push of a descriptor and its bytes)":          a.blobPusher,
-		"generated-config pusher (NewDescriptorFromBytes + blob pusher)":   a.configPusher} {
-		if f == nil {
-			c.LostAnchor(R, what)
-			return nil
-		}
-	}
-	isDesc := func(t types.Type) bool { return c19IsNamed(t, "image-spec/specs-go/v1", "Descriptor") }
-	isBytes := func(t types.Type) bool {
-		s, ok := t.Underlying().(*types.Slice)
-		if !ok {
-			return false
-		}
-		b, ok := s.Elem().Underlying().(*types.Basic)
-		return ok && b.Kind() == types.Byte
-	}
-	isAnnMap := func(t types.Type) bool { _, ok := t.Underlying().(*types.Map); return ok }
-	a.bpDesc = c19ParamIndexByType(a.blobPusher, isDesc)
-	a.bpData = c19ParamIndexByType(a.blobPusher, isBytes)
-	a.mpAnnotations = c19ParamIndexByType(a.manifestPusher, isAnnMap)
-	// manifest parameter: the one handed to json.Marshal
-	for _, m := range CallsTo(a.manifestPusher, c19NMarshal) {
-		for i, p := range a.manifestPusher.Params {
-			if SameValue(m.Common().Args[0], p) {
-				a.mpManifest = i
-			}
-		}
-	}
-	// mediaType parameter: the one handed to NewDescriptorFromBytes; the other string is the artifact type
-	for _, m := range CallsTo(a.manifestPusher, c19NNewDesc) {
-		for i, p := range a.manifestPusher.Params {
-			if SameValue(m.Common().Args[0], p) {
-				a.mpMedia = i
-			}
-		}
-	}
-	for i, p := range a.manifestPusher.Params {
-		if isStringType(p.Type()) && i != a.mpMedia {
-			a.mpArtifact = i
-		}
-	}
-	if a.bpDesc < 0 || a.bpData < 0 || a.mpAnnotations < 0 || a.mpManifest < 0 || a.mpMedia < 0 || a.mpArtifact < 0 {
-		c.LostAnchor(R, fmt.Sprintf("parameter roles of %s / %s", FnName(a.blobPusher), FnName(a.manifestPusher)))
-		return nil
-	}
+
 	return a
 }
 
@@ -297,25 +204,6 @@ func sxEqKeyStr(ka, kb string) string {
 	return "==(" + ka + "," + kb + ")"
 }
 
-// c19Site names a call site without positions: callee plus its ordinal among
-// the calls of the same callee in block order.
-func c19Site(fn *ssa.Function, call ssa.CallInstruction) string {
-	own := call.Parent()
-	n, k := CalleeName(call), 0
-	for _, x := range Calls(own, func(s string) bool { return s == n }) {
-		k++
-		if x == call {
-			break
-		}
-	}
-	n = strings.TrimPrefix(n, "~.")
-	if own != fn {
-		return fmt.Sprintf("%s/%s#%d", own.Name(), n, k) // call inside an inlined helper
-	}
-	return fmt.Sprintf("%s#%d", n, k)
-}
-
-// c19Agg aggregates per-path verdicts into one obligation per key.
 type c19Agg struct {
 	c     *Ctx
 	rule  string
@@ -331,7 +219,9 @@ type c19AggE struct {
 	n       int
 }
 
-func newC19Agg(c *Ctx, rule string) *c19Agg { return &c19Agg{c: c, rule: rule, m: map[string]*c19AggE{}} }
+func newC19Agg(c *Ctx, rule string) *c19Agg {
+	return &c19Agg{c: c, rule: rule, m: map[string]*c19AggE{}}
+}
 
 func (a *c19Agg) entry(key string, fn *ssa.Function, at ssa.Instruction) *c19AggE {
 	e, ok := a.m[key]
@@ -389,17 +279,154 @@ func c19PathNote(p *sxPath) string {
 	return " [path: blocks " + strings.Join(bs, "→") + "]"
 }
 
+func c19NonNilErr(e sxVal) bool {
+	switch u := e.(type) {
+	case sxCall:
+		return u.rec.Name == "fmt.Errorf" || u.rec.Name == "errors.New"
+	case sxInit:
+		_, ok := u.addr.(sxGlobal)
+		return ok
+	}
+	return false
+}
+
+// ---------- R2 ----------
+
 func runC19(c *Ctx) {
 	a := c19Resolve(c)
 	if a == nil {
 		return
 	}
+	c19R6(c, a) // first: R1 needs to know which patterns are RFC 6838
 	c19R1(c, a)
 	c19R2(c, a)
 	c19R3(c, a)
 	c19R4(c, a)
 	c19R5(c, a)
-	c19R6(c, a)
+}
+
+// ---------- push events ----------
+
+// c19Push is one execution of Pusher.Push on a path (helpers inlined).
+type c19Push struct {
+	rec      *sxCallRec
+	desc     sxVal
+	data     sxVal      // the bytes given to bytes.NewReader (nil: reader of another shape)
+	marshal  *sxCallRec // json.Marshal producing data: this is a manifest push
+	manifest sxVal      // the value marshalled
+	kind     string     // manifest | empty-json | generated-blob | blob
+}
+
+func c19PushEvents(p *sxPath) []c19Push {
+	var out []c19Push
+	for _, r := range p.Calls {
+		if r.Name != c19NPush || r.Deferred || len(r.Args) != 3 {
+			continue
+		}
+		e := c19Push{rec: r, desc: r.Args[1], kind: "blob"}
+		if rd, ok := r.Args[2].(sxCall); ok && (rd.rec.Name == c19NReader || rd.rec.Name == "bytes.NewBuffer") && len(rd.rec.Args) == 1 {
+			e.data = rd.rec.Args[0]
+		}
+		if m, ok := e.data.(sxCall); ok && m.rec.Name == c19NMarshal && m.idx == 0 {
+			e.marshal, e.manifest, e.kind = m.rec, m.rec.Args[0], "manifest"
+		} else if c19IsEmptyJSON(e.desc) {
+			e.kind = "empty-json"
+		} else if b, ok := sxBase(e.desc).(sxCall); ok && b.rec.Name == c19NNewDesc {
+			e.kind = "generated-blob"
+		}
+		out = append(out, e)
+	}
+	return out
+}
+
+func c19IsAlreadyExists(v sxVal) bool {
+	i, ok := v.(sxInit)
+	if !ok {
+		return false
+	}
+	g, ok := i.addr.(sxGlobal)
+	return ok && g.g.Name() == "ErrAlreadyExists" && strings.HasSuffix(g.g.Pkg.Pkg.Path(), "/errdef")
+}
+
+// c19Succeeded: among the first n facts the push is known to have returned
+// nil or errdef.ErrAlreadyExists (errors.Is / ==).
+func c19Succeeded(p *sxPath, n int, r *sxCallRec) bool {
+	if p.ErrNil(n, r) {
+		return true
+	}
+	errT := r.Result(-1)
+	for _, c := range p.Calls {
+		if c.Name == "errors.Is" && len(c.Args) == 2 && sxSame(c.Args[0], errT) && c19IsAlreadyExists(c.Args[1]) {
+			if v, known := p.Fact(n, c.Result(0).key()); known && v {
+				return true
+			}
+		}
+	}
+	for _, f := range p.Facts {
+		if op, ok := f.Cond.(sxOp); ok && (op.op == "==" || op.op == "!=") && f.Val {
+			x, y := op.args[0], op.args[1]
+			if (sxSame(x, errT) && c19IsAlreadyExists(y)) || (sxSame(y, errT) && c19IsAlreadyExists(x)) {
+				if v, known := p.Fact(n, f.Key); known && v {
+					return true
+				}
+			}
+		}
+	}
+	return false
+}
+
+// c19Present: before call `at`, the blob described by d was pushed
+// successfully, or Exists(d) returned (true, nil) — identity up to the value
+// the descriptor was copied from.
+func c19Present(p *sxPath, at *sxCallRec, d sxVal) bool {
+	n := at.NFacts
+	for _, r := range p.Calls {
+		if r == at {
+			break
+		}
+		if r.Deferred {
+			continue
+		}
+		if r.Name == c19NPush && len(r.Args) == 3 && sxSame(sxBase(r.Args[1]), sxBase(d)) && c19Succeeded(p, n, r) {
+			return true
+		}
+		if strings.HasSuffix(r.Name, ").Exists") && len(r.Args) > 0 && sxSame(sxBase(r.Args[len(r.Args)-1]), sxBase(d)) && p.ErrNil(n, r) {
+			if v, known := p.Fact(n, r.Result(0).key()); known && v {
+				return true
+			}
+		}
+	}
+	return false
+}
+
+// c19Opaque: a call on the path that can reach Pusher.Push but was not
+// executed in place (inline depth / recursion): the rules cannot see through it.
+func c19Opaque(p *sxPath, a *c19Anchors) string {
+	for _, r := range p.Calls {
+		if r.Callee != nil && r.Name != c19NPush && c19ReachesPush(r.Callee) {
+			return r.Name
+		}
+	}
+	return ""
+}
+
+// sxFieldNamed: field `name` of a struct term built on the path.
+func sxFieldNamed(v sxVal, name string) (sxVal, bool) {
+	for {
+		s, ok := v.(sxStruct)
+		if !ok {
+			return nil, false
+		}
+		for k, n := range s.names {
+			if n == name {
+				return s.fields[k], true
+			}
+		}
+		if s.base == nil {
+			return sxZero{}, false
+		}
+		v = s.base
+	}
 }
 
 // ---------- R1 ----------
@@ -439,9 +466,36 @@ func c19ConfigTerms(opts sxVal, optsT types.Type) (ptr, deref, media sxVal) {
 	return
 }
 
+// c19PatternCalls: the pattern matches of x on the path — calls
+// (*regexp.Regexp).MatchString(<pattern>, x) — with the pattern each one uses
+// (package-level variable, accessor or lazily initialised; nil if unresolved).
+func c19PatternCalls(p *sxPath, x sxVal) (calls []*sxCallRec, srcs []*reSource) {
+	for _, r := range p.Calls {
+		if r.Name != "(*regexp.Regexp).MatchString" || len(r.Args) != 2 || !sxSame(r.Args[1], x) {
+			continue
+		}
+		src, err := reSourceOfReceiver(r.Call.Common().Args[0], 0)
+		if err != nil {
+			src = nil
+		}
+		calls = append(calls, r)
+		srcs = append(srcs, src)
+	}
+	return
+}
+
+func c19PatternKey(src *reSource) string { return fmt.Sprintf("%d:%s", src.Flags, src.Src) }
+
+// c19Validated: among the first n facts, x is known to match a pattern that
+// was proved language-equivalent to RFC 6838 (wherever the match is written:
+// a validator function, a helper, or the packer itself).
 func c19Validated(p *sxPath, n int, a *c19Anchors, x sxVal) bool {
-	for _, v := range p.Calls {
-		if v.Callee == a.validator && v.NFacts <= n && len(v.Args) == 1 && sxSame(v.Args[0], x) && p.ErrNil(n, v) {
+	calls, srcs := c19PatternCalls(p, x)
+	for i, r := range calls {
+		if srcs[i] == nil || !a.rfcPatterns[c19PatternKey(srcs[i])] {
+			continue
+		}
+		if v, known := p.Fact(n, r.Result(0).key()); known && v {
 			return true
 		}
 	}
@@ -460,7 +514,7 @@ func c19NonEmptyString(p *sxPath, n int, v sxVal) bool {
 
 func c19R1(c *Ctx, a *c19Anchors) {
 	const R1 = "C19.R1.validate-before-push"
-	c.Expect(R1, 16)
+	c.Expect(R1, 13)
 	agg := newC19Agg(c, R1)
 	emptyJSON, okE := c19ConstString(c.P, "github.com/opencontainers/image-spec/specs-go/v1", "MediaTypeEmptyJSON")
 	if !okE {
@@ -491,57 +545,85 @@ func c19R1(c *Ctx, a *c19Anchors) {
 		}
 		nPush := 0
 		for _, p := range res.Paths {
-			for _, r := range p.Calls {
-				if !c19IsPushCall(r) {
-					continue
-				}
-				nPush++
-				site := c19Site(P, r.Call)
-				in := r.Call.(ssa.Instruction)
-				for _, s := range subjects {
-					key := pn + "|" + site + "|" + s.label
-					flows, wholesale := false, false
-					for _, arg := range r.Args {
+			if name := c19Opaque(p, a); name != "" {
+				agg.undecided(pn+"|helpers", P, nil, "the helper "+name+" reaches Pusher.Push but lies too deep to be followed (inlining depth "+fmt.Sprint(sxInlineDepth)+")")
+				continue
+			}
+			pushes := c19PushEvents(p)
+			// first pass: into which pushes of this path does each subject flow
+			type flowInfo struct{ flows, wholesale bool }
+			flow := make([][]flowInfo, len(pushes))
+			lastFlow := make([]int, len(subjects))
+			for si := range lastFlow {
+				lastFlow[si] = -1
+			}
+			for pi, e := range pushes {
+				flow[pi] = make([]flowInfo, len(subjects))
+				for si, s := range subjects {
+					fi := &flow[pi][si]
+					for _, arg := range e.rec.Args {
 						sxWalk(arg, func(x sxVal) bool {
 							if sxSame(x, s.term) {
-								flows = true
+								fi.flows = true
 							}
 							for _, w := range s.whole {
 								if sxSame(x, w) {
-									flows = true
+									fi.flows = true
 								}
 							}
 							if sxSame(x, opts) {
-								// only a wholesale use counts (a field selection of opts is a different term)
-								wholesale = true
+								fi.wholesale = true // only a wholesale use counts
 							}
 							if f, ok := x.(sxField); ok && sxSame(f.x, opts) {
 								return false // do not descend from opts.F into opts
 							}
 							return true
 						})
+					}
+					if fi.flows || fi.wholesale {
+						lastFlow[si] = pi
+					}
+				}
+			}
+			for pi, e := range pushes {
+				nPush++
+				r := e.rec
+				site := "push:" + e.kind
+				in := r.Call.(ssa.Instruction)
+				for si, s := range subjects {
+					key := pn + "|" + site + "|" + s.label
+					undec := false
+					for _, arg := range r.Args {
 						if why, unk := sxUnknownIn(arg); unk {
-							agg.undecided(key, P, in, "an argument of this call could not be evaluated: "+why)
+							agg.undecided(key, P, in, "what is pushed here could not be evaluated: "+why)
+							undec = true
 						}
 					}
+					if undec {
+						continue
+					}
+					fi := flow[pi][si]
 					switch {
-					case wholesale:
-						agg.undecided(key, P, in, "the options struct is passed wholesale to "+r.Name+"; cannot follow the media type into it")
-					case !flows:
-						agg.ok(key, P, in, "the string does not flow into this call on these paths, or it was validated/empty")
+					case fi.wholesale:
+						agg.undecided(key, P, in, "the options struct itself flows into what is pushed; cannot follow the media type into it")
+					case lastFlow[si] < pi:
+						agg.ok(key, P, in, "the string is not used by this or any later push of these paths")
 					case c19Validated(p, r.NFacts, a, s.term):
-						agg.ok(key, P, in, "validated by "+FnName(a.validator)+" (nil result) before the call")
-					case p.IsEmptyString(r.NFacts, s.term):
-						agg.ok(key, P, in, "known empty before the call")
+						agg.ok(key, P, in, "known to match the RFC 6838 pattern before the push")
+					case si == 0 && p.IsEmptyString(r.NFacts, s.term):
+						agg.ok(key, P, in, "known empty before the push (an empty artifactType is documented as \"not given\")")
+					case fi.flows:
+						agg.fail(key, P, in, p, fmt.Sprintf("%s reaches what is pushed here (%s) without being known to match the RFC 6838 media type pattern (a violating media type would be pushed instead of rejected)",
+							s.label, e.kind))
 					default:
-						agg.fail(key, P, in, p, fmt.Sprintf("%s reaches what %s pushes without having passed %s (a media type violating RFC 6838 would be pushed instead of rejected)",
-							s.label, r.Name, FnName(a.validator)))
+						agg.fail(key, P, in, p, fmt.Sprintf("%s is used by a later push of this path (%s) but is not yet known to match the RFC 6838 pattern when the %s is pushed: a violating media type would be rejected only after something was pushed",
+							s.label, pushes[lastFlow[si]].kind, e.kind))
 					}
 				}
 				if P == a.v10 {
 					key := pn + "|" + site + "|subject-rejected"
 					if p.IsNil(r.NFacts, subjPtr) {
-						agg.ok(key, P, in, "opts.Subject == nil is established before the call")
+						agg.ok(key, P, in, "opts.Subject == nil is established before the push")
 					} else {
 						agg.fail(key, P, in, p, "a push is reachable with opts.Subject set: version 1.0 has no subject field, the request must be rejected before anything is pushed")
 					}
@@ -550,7 +632,7 @@ func c19R1(c *Ctx, a *c19Anchors) {
 					key := pn + "|" + site + "|artifact-type-present"
 					eq, known := p.KnownEq(r.NFacts, cfgMedia, sxStr(emptyJSON))
 					if c19NonEmptyString(p, r.NFacts, art) || (p.NonNil(r.NFacts, cfgPtr) && known && !eq) {
-						agg.ok(key, P, in, "artifactType is non-empty, or a non-empty-JSON config descriptor is given, before the call")
+						agg.ok(key, P, in, "artifactType is non-empty, or a non-empty-JSON config descriptor is given, before the push")
 					} else {
 						agg.fail(key, P, in, p, "a push is reachable with an empty artifactType and no (or the empty-JSON) config media type: ErrMissingArtifactType must be returned before anything is pushed")
 					}
@@ -558,7 +640,7 @@ func c19R1(c *Ctx, a *c19Anchors) {
 			}
 		}
 		if nPush == 0 {
-			c.LostAnchor(R1, pn+": no call reaching Pusher.Push")
+			c.LostAnchor(R1, pn+": no Pusher.Push reached")
 		}
 	}
 	agg.flush()
@@ -583,7 +665,6 @@ func c19R1(c *Ctx, a *c19Anchors) {
 				if v, known := p.Fact(r.NFacts, want); want != "" && !(known && v) {
 					okDispatch, detail = false, r.Name+" is called on a path where the version is not known to be its own (an unsupported version would be packed instead of rejected)"+c19PathNote(p)
 				}
-				// parameters are forwarded unchanged
 				for i, arg := range r.Args {
 					if _, isParam := arg.(sxParam); !isParam {
 						okDispatch, detail = false, fmt.Sprintf("argument %d of %s is not a parameter of PackManifest", i, r.Name)
@@ -601,39 +682,26 @@ func c19R1(c *Ctx, a *c19Anchors) {
 	c.Check(R1, FnName(P)+"|version-dispatch", P.Pos(), okDispatch, detail)
 }
 
-func c19NonNilErr(e sxVal) bool {
-	switch u := e.(type) {
-	case sxCall:
-		return u.rec.Name == "fmt.Errorf" || u.rec.Name == "errors.New"
-	case sxInit:
-		_, ok := u.addr.(sxGlobal)
-		return ok
-	}
-	return false
-}
-
 // ---------- R2 ----------
-
-func c19ManifestArg(a *c19Anchors, r *sxCallRec) (sxVal, types.Type) {
-	v := r.Call.Common().Args[a.mpManifest]
-	t := v.Type()
-	if mi, ok := v.(*ssa.MakeInterface); ok {
-		t = mi.X.Type()
-	}
-	return r.Args[a.mpManifest], t
-}
 
 func c19R2(c *Ctx, a *c19Anchors) {
 	const R2 = "C19.R2.created-time-checked"
-	c.Expect(R2, 6)
+	c.Expect(R2, 4)
 	agg := newC19Agg(c, R2)
-	created := map[string]bool{}
+	var createdKeys []sxVal
 	for _, k := range [][2]string{{"github.com/opencontainers/image-spec/specs-go/v1", "AnnotationCreated"}, {"internal/spec", "AnnotationArtifactCreated"}} {
 		if s, ok := c19ConstString(c.P, k[0], k[1]); ok {
-			created["const:"+constant.MakeString(s).ExactString()] = true
+			createdKeys = append(createdKeys, sxStr(s))
 		} else {
 			c.LostAnchor(R2, k[0]+"."+k[1])
 		}
+	}
+	rfc3339 := ""
+	if k, ok := c.P.Obj("time", "RFC3339").(*types.Const); ok {
+		rfc3339 = "const:" + k.Val().ExactString()
+	} else {
+		c.LostAnchor(R2, "time.RFC3339")
+		return
 	}
 	for _, P := range []*ssa.Function{a.v10, a.v11, a.rc2, a.artifact} {
 		pn := FnName(P)
@@ -642,148 +710,110 @@ func c19R2(c *Ctx, a *c19Anchors) {
 			c.LostAnchor(R2, pn+": options parameter")
 			continue
 		}
-		want, _ := sxFieldByName(opts, optsT, "ManifestAnnotations")
+		req, _ := sxFieldByName(opts, optsT, "ManifestAnnotations")
 		res := a.paths(P)
-		if res.Err != "" {
+		if res.Err != "" || req == nil {
 			c.Undecided(R2, pn+"|paths", P.Pos(), res.Err)
 			continue
 		}
+		key := pn + "|created-time"
 		found := false
 		for _, p := range res.Paths {
-			for _, r := range p.Calls {
-				if r.Callee != a.manifestPusher {
+			if name := c19Opaque(p, a); name != "" {
+				agg.undecided(key, P, nil, "the helper "+name+" reaches Pusher.Push but lies too deep to be followed")
+				continue
+			}
+			for _, e := range c19PushEvents(p) {
+				if e.kind != "manifest" {
 					continue
 				}
 				found = true
+				r := e.rec
+				n := r.NFacts
 				in := r.Call.(ssa.Instruction)
-				key := pn + "|annotations"
-				m, mt := c19ManifestArg(a, r)
-				ann, ok := sxFieldByName(m, mt, "Annotations")
+				ann, ok := sxFieldNamed(e.manifest, "Annotations")
 				if !ok {
-					agg.undecided(key, P, in, "the manifest value has no Annotations field")
+					agg.fail(key, P, in, p, "the manifest pushed carries no Annotations (the created time is neither validated nor filled in)")
 					continue
 				}
-				call, isCall := ann.(sxCall)
+				dann, _ := sxFieldByName(e.desc, c19DescType(c), "Annotations")
+				// which created key, and was its presence decided by the comma-ok lookup
+				var K, okT, valT sxVal
+				present, known := false, false
+				for _, k := range createdKeys {
+					lk := sxOp{"lookup,ok", []sxVal{req, k}}
+					o := sxOp{"extract#1", []sxVal{lk}}
+					if v, kn := p.Fact(n, o.key()); kn {
+						K, okT, valT, present, known = k, o, sxOp{"extract#0", []sxVal{lk}}, v, true
+					}
+				}
+				_ = okT
 				switch {
-				case !isCall || call.rec.Callee != a.annot || call.idx != 0:
-					agg.fail(key, P, in, p, "manifest.Annotations is not the result of "+FnName(a.annot)+" (got "+sxDescribe(ann)+"): the created time is neither validated nor filled in")
-				case !p.ErrNil(r.NFacts, call.rec):
-					agg.fail(key, P, in, p, "the manifest is pushed although "+FnName(a.annot)+" may have failed (malformed created time must be rejected without pushing a manifest)")
-				case want == nil || !sxSame(call.rec.Args[0], want):
-					agg.fail(key, P, in, p, "the created-time helper is not given opts.ManifestAnnotations (got "+sxDescribe(call.rec.Args[0])+")")
-				case !created[call.rec.Args[1].key()]:
-					agg.fail(key, P, in, p, "the created-time helper is not keyed by an OCI created annotation (got "+sxDescribe(call.rec.Args[1])+")")
-				case !sxSame(r.Args[a.mpAnnotations], ann):
-					agg.fail(key, P, in, p, "the annotations copied into the returned descriptor differ from manifest.Annotations")
+				case !known:
+					agg.fail(key, P, in, p, "the manifest is pushed without having decided, by a comma-ok lookup of the created key in opts.ManifestAnnotations, whether a created time was given (a given but malformed or empty value would not be rejected)")
+				case present:
+					var parse *sxCallRec
+					for _, t := range p.CallsNamed("time.Parse") {
+						if len(t.Args) == 2 && t.Args[0].key() == rfc3339 && sxSame(t.Args[1], valT) {
+							parse = t
+						}
+					}
+					switch {
+					case parse == nil:
+						agg.fail(key, P, in, p, "a given created time is not parsed with time.Parse(time.RFC3339, value) before the manifest push")
+					case !p.ErrNil(n, parse):
+						agg.fail(key, P, in, p, "the manifest is pushed although time.Parse of the given created time may have failed (a malformed created time must be rejected without pushing a manifest)")
+					case !sxSame(ann, req):
+						agg.fail(key, P, in, p, "with a valid created time the manifest annotations are not the caller's (got "+sxDescribe(ann)+")")
+					case !sxSame(dann, ann):
+						agg.fail(key, P, in, p, "the annotations of the returned descriptor differ from manifest.Annotations")
+					default:
+						agg.ok(key, P, in, "given created time: parsed as RFC 3339 with nil error before the manifest push; the caller's annotations are used")
+					}
 				default:
-					agg.ok(key, P, in, "manifest.Annotations and the descriptor annotations are the checked result of "+FnName(a.annot)+"(opts.ManifestAnnotations, created-key), error nil")
+					okCopy, okFill := false, false
+					for _, cp := range p.CallsNamed("maps.Copy") {
+						if cp.NFacts <= n && sxSame(cp.Args[0], ann) && sxSame(cp.Args[1], req) {
+							okCopy = true
+						}
+					}
+					if cl, isCall := ann.(sxCall); isCall && cl.rec.Name == "maps.Clone" && sxSame(cl.rec.Args[0], req) {
+						okCopy = true
+					}
+					for _, u := range p.Updates {
+						if u.NFacts <= n && sxSame(u.Map, ann) && sxSame(u.Key, K) {
+							fromNow, rfc := false, false
+							sxWalk(u.Val, func(x sxVal) bool {
+								if cl, ok := x.(sxCall); ok {
+									if cl.rec.Name == "time.Now" {
+										fromNow = true
+									}
+									if cl.rec.Name == "(time.Time).Format" && len(cl.rec.Args) == 2 && cl.rec.Args[1].key() == rfc3339 {
+										rfc = true
+									}
+								}
+								return true
+							})
+							okFill = fromNow && rfc
+						}
+					}
+					switch {
+					case sxSame(ann, req):
+						agg.fail(key, P, in, p, "without a created time the caller's annotation map itself is used (it would be mutated, or no created time is filled in)")
+					case !okFill:
+						agg.fail(key, P, in, p, "without a created time the manifest annotations do not get the created key set to time.Now() formatted as RFC 3339")
+					case !okCopy:
+						agg.undecided(key, P, in, "cannot see the caller's annotations being copied into the new map (maps.Copy / maps.Clone expected)")
+					case !sxSame(dann, ann):
+						agg.fail(key, P, in, p, "the annotations of the returned descriptor differ from manifest.Annotations")
+					default:
+						agg.ok(key, P, in, "no created time given: a copy of the annotations with the created key set to time.Now().Format(RFC3339) is used")
+					}
 				}
 			}
 		}
 		if !found {
-			c.LostAnchor(R2, pn+": call of "+FnName(a.manifestPusher))
-		}
-	}
-	agg.flush()
-	// the helper itself
-	E := a.annot
-	en := FnName(E)
-	rfc3339 := ""
-	if k, ok := c.P.Obj("time", "RFC3339").(*types.Const); ok {
-		rfc3339 = "const:" + k.Val().ExactString()
-	} else {
-		c.LostAnchor(R2, "time.RFC3339")
-		return
-	}
-	mapIdx := c19ParamIndexByType(E, func(t types.Type) bool { _, ok := t.Underlying().(*types.Map); return ok })
-	keyIdx := c19ParamIndexByType(E, isStringType)
-	if mapIdx < 0 || keyIdx < 0 {
-		c.LostAnchor(R2, en+": (map, key) parameters")
-		return
-	}
-	pm, pk := sxParam{E.Params[mapIdx]}, sxParam{E.Params[keyIdx]}
-	lookup := sxOp{"lookup,ok", []sxVal{pm, pk}}
-	lval, lok := sxOp{"extract#0", []sxVal{lookup}}, sxOp{"extract#1", []sxVal{lookup}}
-	res := a.paths(E)
-	if res.Err != "" {
-		c.Undecided(R2, en+"|paths", E.Pos(), res.Err)
-		return
-	}
-	agg = newC19Agg(c, R2)
-	for _, p := range res.Paths {
-		if p.Ret == nil {
-			continue
-		}
-		present, known := p.Fact(-1, lok.key())
-		if !known {
-			agg.undecided(en+"|lookup", E, p.RetInstr, "a path does not test whether the created key is present"+c19PathNote(p))
-			continue
-		}
-		errNil := sxSame(p.Ret[1], sxNil)
-		if present {
-			key := en+"|given-time-parsed"
-			var parse *sxCallRec
-			for _, r := range p.CallsNamed("time.Parse") {
-				if r.Args[0].key() == rfc3339 && sxSame(r.Args[1], lval) {
-					parse = r
-				}
-			}
-			switch {
-			case parse == nil:
-				agg.fail(key, E, p.RetInstr, p, "the given created time is not parsed with time.Parse(time.RFC3339, value)")
-			case errNil && !p.ErrNil(-1, parse):
-				agg.fail(key, E, p.RetInstr, p, "success is returned although time.Parse may have failed")
-			case errNil && !sxSame(p.Ret[0], pm):
-				agg.fail(key, E, p.RetInstr, p, "with a valid created time the annotations returned are not the caller's")
-			case !errNil && p.ErrNil(-1, parse):
-				agg.fail(key, E, p.RetInstr, p, "an error is returned although the given created time parsed")
-			case !errNil && !c19NonNilErr(p.Ret[1]):
-				agg.fail(key, E, p.RetInstr, p, "the parse failure is not returned as a non-nil error")
-			default:
-				agg.ok(key, E, p.RetInstr, "a given created time is parsed as RFC 3339; success ⇔ parse succeeded; the caller's map is returned")
-			}
-			continue
-		}
-		key := en+"|missing-time-filled"
-		if !errNil {
-			agg.fail(key, E, p.RetInstr, p, "an error is returned although no created time was given")
-			continue
-		}
-		okFill, okCopy := false, false
-		for _, u := range p.Updates {
-			if sxSame(u.Map, p.Ret[0]) && sxSame(u.Key, pk) {
-				fromNow, rfc := false, false
-				sxWalk(u.Val, func(x sxVal) bool {
-					if cl, ok := x.(sxCall); ok {
-						if cl.rec.Name == "time.Now" {
-							fromNow = true
-						}
-						if cl.rec.Name == "(time.Time).Format" && len(cl.rec.Args) == 2 && cl.rec.Args[1].key() == rfc3339 {
-							rfc = true
-						}
-					}
-					return true
-				})
-				okFill = fromNow && rfc
-			}
-		}
-		for _, r := range p.CallsNamed("maps.Copy") {
-			if sxSame(r.Args[0], p.Ret[0]) && sxSame(r.Args[1], pm) {
-				okCopy = true
-			}
-		}
-		if cl, ok := p.Ret[0].(sxCall); ok && cl.rec.Name == "maps.Clone" && sxSame(cl.rec.Args[0], pm) {
-			okCopy = true
-		}
-		switch {
-		case sxSame(p.Ret[0], pm):
-			agg.fail(key, E, p.RetInstr, p, "the caller's annotation map is returned (and would be mutated) instead of a copy")
-		case !okCopy:
-			agg.undecided(key, E, p.RetInstr, "cannot see the caller's annotations being copied into the returned map (maps.Copy / maps.Clone expected)")
-		case !okFill:
-			agg.fail(key, E, p.RetInstr, p, "the returned map does not get the created key set to time.Now() formatted as RFC 3339")
-		default:
-			agg.ok(key, E, p.RetInstr, "a copy of the annotations with the created key set to time.Now().Format(RFC3339) is returned")
+			c.LostAnchor(R2, pn+": manifest push (Pusher.Push of json.Marshal bytes)")
 		}
 	}
 	agg.flush()
@@ -821,193 +851,96 @@ func c19PairOK(d, b sxVal, allowed map[string]bool) (bool, string) {
 	return false, "cannot relate the descriptor " + sxDescribe(d) + " to the bytes pushed"
 }
 
-func c19FirstArgIs(v sxVal, want sxVal) bool {
-	cl, ok := v.(sxCall)
-	return ok && len(cl.rec.Args) > 0 && sxSame(cl.rec.Args[0], want)
-}
-
 func c19R3(c *Ctx, a *c19Anchors) {
 	const R3 = "C19.R3.descriptor-matches-bytes"
-	c.Expect(R3, 14)
+	c.Expect(R3, 16)
 	agg := newC19Agg(c, R3)
-	// (a) manifest pusher
-	MP := a.manifestPusher
-	mn := FnName(MP)
-	pusherIdx := c19ParamIndexByType(MP, func(t types.Type) bool { return c19IsNamed(t, "/content", "Pusher") })
-	res := a.paths(MP)
-	if res.Err != "" {
-		c.Undecided(R3, mn+"|paths", MP.Pos(), res.Err)
-	}
-	for _, p := range res.Paths {
-		if p.Ret == nil {
+	for _, P := range []*ssa.Function{a.v10, a.v11, a.rc2, a.artifact} {
+		pn := FnName(P)
+		res := a.paths(P)
+		if res.Err != "" {
+			c.Undecided(R3, pn+"|paths", P.Pos(), res.Err)
 			continue
 		}
-		errNil := sxSame(p.Ret[len(p.Ret)-1], sxNil)
-		pushes := p.CallsNamed(c19NPush)
-		if errNil {
-			key := mn + "|success-implies-push"
-			if len(pushes) == 0 {
-				agg.fail(key, MP, p.RetInstr, p, "a path returns success without pushing the manifest")
-			} else {
-				agg.ok(key, MP, p.RetInstr, "every successful return has pushed")
-			}
+		pusherIdx := c19ParamIndexByType(P, func(t types.Type) bool { return c19IsNamed(t, "/content", "Pusher") })
+		if pusherIdx < 0 {
+			c.LostAnchor(R3, pn+": content.Pusher parameter")
+			continue
 		}
-		for _, r := range pushes {
-			in := r.Call.(ssa.Instruction)
-			d, rd := r.Args[1], r.Args[2]
-			key := mn + "|push-pair"
-			reader, ok := rd.(sxCall)
-			if !ok || reader.rec.Name != c19NReader {
-				agg.undecided(key, MP, in, "the pushed reader is not bytes.NewReader(...): "+sxDescribe(rd))
+		pusher := sxParam{P.Params[pusherIdx]}
+		for _, p := range res.Paths {
+			if name := c19Opaque(p, a); name != "" {
+				agg.undecided(pn+"|push-pair", P, nil, "the helper "+name+" reaches Pusher.Push but lies too deep to be followed")
 				continue
 			}
-			b := reader.rec.Args[0]
-			okPair, why := c19PairOK(d, b, map[string]bool{"ArtifactType": true, "Annotations": true})
-			mar, isMar := b.(sxCall)
-			switch {
-			case !okPair:
-				agg.fail(key, MP, in, p, why+": the returned digest/size would not be those of the stored bytes")
-			case !isMar || mar.rec.Name != c19NMarshal || mar.idx != 0 || !sxSame(mar.rec.Args[0], sxParam{MP.Params[a.mpManifest]}):
-				agg.fail(key, MP, in, p, "the pushed bytes are not json.Marshal(manifest) (got "+sxDescribe(b)+")")
-			case !p.ErrNil(r.NFacts, mar.rec):
-				agg.fail(key, MP, in, p, "the manifest is pushed although json.Marshal may have failed")
-			case !c19FirstArgIs(sxBase(d), sxParam{MP.Params[a.mpMedia]}):
-				agg.fail(key, MP, in, p, "the descriptor's media type is not the mediaType parameter")
-			case pusherIdx < 0 || !sxSame(r.Recv, sxParam{MP.Params[pusherIdx]}):
-				agg.fail(key, MP, in, p, "Push is not invoked on the pusher parameter")
-			default:
-				agg.ok(key, MP, in, why+"; B = json.Marshal(manifest) with nil error")
+			pushes := c19PushEvents(p)
+			var man *c19Push
+			for i := range pushes {
+				e := &pushes[i]
+				in := e.rec.Call.(ssa.Instruction)
+				key := pn + "|push-pair"
+				allowed := map[string]bool{"Annotations": true}
+				if e.kind == "manifest" {
+					allowed["ArtifactType"] = true
+					man = e
+				}
+				switch {
+				case e.data == nil:
+					agg.undecided(key, P, in, "the content pushed is not bytes.NewReader(<bytes>): "+sxDescribe(e.rec.Args[2]))
+				case !sxSame(e.rec.Recv, pusher):
+					agg.fail(key, P, in, p, "Push is not invoked on the caller's pusher")
+				default:
+					if ok, why := c19PairOK(e.desc, e.data, allowed); ok {
+						agg.ok(key, P, in, why)
+					} else {
+						agg.fail(key, P, in, p, why+": the descriptor would not describe the stored bytes")
+					}
+				}
+				if e.kind == "manifest" {
+					key = pn + "|manifest-bytes"
+					if p.ErrNil(e.rec.NFacts, e.marshal) {
+						agg.ok(key, P, in, "the manifest pushed is json.Marshal(manifest) with nil error")
+					} else {
+						agg.fail(key, P, in, p, "the manifest is pushed although json.Marshal may have failed")
+					}
+				}
 			}
-			// descriptor decorations
-			key = mn + "|descriptor-decorated"
-			at, _ := sxFieldByName(d, r.Call.Common().Args[1].Type(), "ArtifactType")
-			an, _ := sxFieldByName(d, r.Call.Common().Args[1].Type(), "Annotations")
-			if sxSame(at, sxParam{MP.Params[a.mpArtifact]}) && sxSame(an, sxParam{MP.Params[a.mpAnnotations]}) {
-				agg.ok(key, MP, in, "ArtifactType and Annotations of the descriptor are the corresponding parameters")
+			if p.Ret == nil || !sxSame(p.Ret[len(p.Ret)-1], sxNil) {
+				continue
+			}
+			// successful return
+			key := pn + "|returns-pushed-descriptor"
+			switch {
+			case man == nil:
+				agg.fail(key, P, p.RetInstr, p, "a path returns success without pushing a manifest")
+			case !sxSame(p.Ret[0], man.desc):
+				agg.fail(key, P, p.RetInstr, p, "the descriptor returned ("+sxDescribe(p.Ret[0])+") is not the one the manifest was pushed with")
+			default:
+				agg.ok(key, P, p.RetInstr, "the descriptor returned on success is the one the manifest was pushed with")
+			}
+			key = pn + "|failures-surface"
+			bad := ""
+			for _, e := range pushes {
+				if !c19Succeeded(p, -1, e.rec) {
+					bad = "the push of the " + e.kind
+				}
+				if e.marshal != nil && !p.ErrNil(-1, e.marshal) {
+					bad = "json.Marshal"
+				}
+			}
+			for _, x := range p.Calls {
+				if strings.HasSuffix(x.Name, ").Exists") && !p.ErrNil(-1, x) {
+					bad = "the existence check"
+				}
+			}
+			if bad == "" {
+				agg.ok(key, P, p.RetInstr, "success is returned only if every push returned nil or ErrAlreadyExists, and marshalling and existence checks returned nil")
 			} else {
-				agg.fail(key, MP, in, p, "the pushed descriptor does not carry the artifactType/annotations parameters")
+				agg.fail(key, P, p.RetInstr, p, "success is returned although "+bad+" may have failed with an error other than ErrAlreadyExists")
 			}
-			if errNil {
-				key = mn + "|returns-pushed-descriptor"
-				if sxSame(p.Ret[0], d) {
-					agg.ok(key, MP, in, "the descriptor returned on success is the one pushed")
-				} else {
-					agg.fail(key, MP, in, p, "the descriptor returned ("+sxDescribe(p.Ret[0])+") is not the one pushed")
-				}
-			}
-		}
-	}
-	// (b) blob pusher: pushes its own (desc, data) parameters
-	BP := a.blobPusher
-	bn := FnName(BP)
-	res = a.paths(BP)
-	if res.Err != "" {
-		c.Undecided(R3, bn+"|paths", BP.Pos(), res.Err)
-	}
-	for _, p := range res.Paths {
-		for _, r := range p.CallsNamed(c19NPush) {
-			in := r.Call.(ssa.Instruction)
-			key := bn + "|push-pair"
-			reader, ok := r.Args[2].(sxCall)
-			switch {
-			case !ok || reader.rec.Name != c19NReader:
-				agg.undecided(key, BP, in, "the pushed reader is not bytes.NewReader(...)")
-			case !sxSame(r.Args[1], sxParam{BP.Params[a.bpDesc]}) || !sxSame(reader.rec.Args[0], sxParam{BP.Params[a.bpData]}):
-				agg.fail(key, BP, in, p, "Push is not given the (desc, data) parameters unchanged")
-			default:
-				agg.ok(key, BP, in, "Push(desc, bytes.NewReader(data)) with the parameters unchanged")
-			}
-		}
-	}
-	// (c) every caller of the blob pusher passes a consistent pair
-	nCallers := 0
-	for _, F := range c.P.FuncsOfPkg("") {
-		calls := CallsTo(F, fnFullName(BP))
-		if len(calls) == 0 {
-			continue
-		}
-		fn := FnName(F)
-		res := a.paths(F)
-		if res.Err != "" {
-			c.Undecided(R3, fn+"|paths", F.Pos(), res.Err)
-			continue
-		}
-		for _, p := range res.Paths {
-			for _, r := range p.Calls {
-				if r.Callee != BP || r.Deferred {
-					continue
-				}
-				nCallers++
-				in := r.Call.(ssa.Instruction)
-				key := fn + "|" + c19Site(F, r.Call) + "|pair"
-				ok, why := c19PairOK(r.Args[a.bpDesc], r.Args[a.bpData], map[string]bool{"Annotations": true})
-				if ok {
-					agg.ok(key, F, in, why)
-				} else {
-					agg.fail(key, F, in, p, why)
-				}
-			}
-		}
-	}
-	if nCallers == 0 {
-		c.LostAnchor(R3, "callers of "+bn)
-	}
-	// (d) generated-config pusher returns the descriptor it pushed
-	CP := a.configPusher
-	cn := FnName(CP)
-	res = a.paths(CP)
-	if res.Err != "" {
-		c.Undecided(R3, cn+"|paths", CP.Pos(), res.Err)
-	}
-	for _, p := range res.Paths {
-		if p.Ret == nil || !sxSame(p.Ret[len(p.Ret)-1], sxNil) {
-			continue
-		}
-		key := cn + "|returns-pushed-descriptor"
-		ok := false
-		for _, r := range p.Calls {
-			if r.Callee == BP && p.ErrNil(-1, r) && sxSame(r.Args[a.bpDesc], p.Ret[0]) {
-				ok = true
-			}
-		}
-		if ok {
-			agg.ok(key, CP, p.RetInstr, "the descriptor returned on success was pushed (nil error) on the same path")
-		} else {
-			agg.fail(key, CP, p.RetInstr, p, "a successful return yields a descriptor that was not pushed successfully")
-		}
-		// media type and annotations requested by the caller
-		key = cn + "|requested-fields"
-		mt, _ := sxFieldByName(p.Ret[0], CP.Signature.Results().At(0).Type(), "MediaType")
-		an, _ := sxFieldByName(p.Ret[0], CP.Signature.Results().At(0).Type(), "Annotations")
-		sIdx := c19ParamIndexByType(CP, isStringType)
-		mIdx := c19ParamIndexByType(CP, func(t types.Type) bool { _, ok := t.Underlying().(*types.Map); return ok })
-		okMT := false
-		if base, isCall := sxBase(p.Ret[0]).(sxCall); isCall && sIdx >= 0 && base.rec.Name == c19NNewDesc && sxSame(base.rec.Args[0], sxParam{CP.Params[sIdx]}) {
-			okMT = true
-		}
-		_ = mt
-		if okMT && mIdx >= 0 && sxSame(an, sxParam{CP.Params[mIdx]}) {
-			agg.ok(key, CP, p.RetInstr, "the generated config carries the requested media type and annotations")
-		} else {
-			agg.fail(key, CP, p.RetInstr, p, "the generated config descriptor does not carry the requested media type / annotations")
 		}
 	}
 	agg.flush()
-	// (e) error discipline at the pushes
-	for _, F := range []*ssa.Function{MP, BP} {
-		for _, call := range CallsTo(F, c19NPush) {
-			r := ErrFlow(call, ErrFlowOpts{Tolerated: []string{"~/errdef.ErrAlreadyExists"}})
-			c.Check(R3, FnName(F)+"|push-error-surfaces", call.Pos(), r.OK, r.How+r.Detail)
-		}
-	}
-	for _, call := range CallsTo(MP, c19NMarshal) {
-		r := ErrFlow(call, ErrFlowOpts{})
-		c.Check(R3, mn+"|marshal-error-surfaces", call.Pos(), r.OK, r.How+r.Detail)
-	}
-	for _, call := range CallsTo(CP, fnFullName(BP)) {
-		r := ErrFlow(call, ErrFlowOpts{})
-		c.Check(R3, cn+"|push-error-surfaces", call.Pos(), r.OK, r.How+r.Detail)
-	}
 }
 
 // ---------- R4 ----------
@@ -1024,9 +957,11 @@ func c19Invented(d sxVal) bool {
 	return false
 }
 
+func c19IsParam(v sxVal) bool { _, ok := v.(sxParam); return ok }
+
 func c19R4(c *Ctx, a *c19Anchors) {
 	const R4 = "C19.R4.invented-blobs-pushed"
-	c.Expect(R4, 7)
+	c.Expect(R4, 6)
 	agg := newC19Agg(c, R4)
 	for _, P := range []*ssa.Function{a.v10, a.v11, a.rc2} {
 		pn := FnName(P)
@@ -1037,47 +972,33 @@ func c19R4(c *Ctx, a *c19Anchors) {
 			continue
 		}
 		callerLayers, _ := sxFieldByName(opts, optsT, "Layers")
-		pushedBefore := func(p *sxPath, n int, d sxVal) bool {
-			for _, b := range p.Calls {
-				if b.Callee == a.blobPusher && b.NFacts <= n && p.ErrNil(n, b) && sxSame(sxBase(b.Args[a.bpDesc]), sxBase(d)) {
-					return true
-				}
-			}
-			return false
-		}
+		cfgPtr, cfgDeref, _ := c19ConfigTerms(opts, optsT)
+		_ = cfgPtr
 		for _, p := range res.Paths {
-			for _, r := range p.Calls {
-				if r.Callee != a.manifestPusher {
+			if c19Opaque(p, a) != "" {
+				continue // reported by R1/R3
+			}
+			for _, e := range c19PushEvents(p) {
+				if e.kind != "manifest" {
 					continue
 				}
+				r := e.rec
 				in := r.Call.(ssa.Instruction)
-				m, mt := c19ManifestArg(a, r)
-				cfg, ok1 := sxFieldByName(m, mt, "Config")
-				lay, ok2 := sxFieldByName(m, mt, "Layers")
+				cfg, ok1 := sxFieldNamed(e.manifest, "Config")
+				lay, ok2 := sxFieldNamed(e.manifest, "Layers")
 				if !ok1 || !ok2 {
-					agg.undecided(pn+"|config", P, in, "manifest value without Config/Layers")
+					agg.undecided(pn+"|config", P, in, "the manifest value has no Config/Layers set")
 					continue
 				}
 				key := pn + "|config"
-				switch cv := sxBase(cfg).(type) {
-				case sxCall:
-					switch {
-					case cv.rec.Callee == a.configPusher && p.ErrNil(r.NFacts, cv.rec):
-						agg.ok(key, P, in, "generated config: "+FnName(a.configPusher)+" succeeded before the manifest push")
-					case c19Invented(cfg) && pushedBefore(p, r.NFacts, cfg):
-						agg.ok(key, P, in, "config built here was pushed before the manifest")
-					default:
-						agg.fail(key, P, in, p, "the manifest references a config descriptor ("+sxDescribe(cv)+") that was not pushed successfully on this path")
-					}
-				case sxInit:
-					if _, isGlobal := cv.addr.(sxGlobal); isGlobal {
-						if pushedBefore(p, r.NFacts, cfg) {
-							agg.ok(key, P, in, "the empty-JSON config was pushed before the manifest")
-						} else {
-							agg.fail(key, P, in, p, "the manifest references the empty-JSON config blob, which was not pushed on this path (the result cannot be copied)")
-						}
+				switch {
+				case sxSame(cfg, cfgDeref):
+					agg.ok(key, P, in, "config is the caller's descriptor")
+				case c19Invented(cfg):
+					if c19Present(p, r, cfg) {
+						agg.ok(key, P, in, "the config invented here was pushed (or found to exist) before the manifest")
 					} else {
-						agg.ok(key, P, in, "config is the caller's descriptor")
+						agg.fail(key, P, in, p, "the manifest references a config blob ("+sxDescribe(sxBase(cfg))+") that the packer invented but did not push on this path (the result cannot be copied)")
 					}
 				default:
 					agg.undecided(key, P, in, "cannot classify the config descriptor "+sxDescribe(cfg))
@@ -1085,19 +1006,17 @@ func c19R4(c *Ctx, a *c19Anchors) {
 				key = pn + "|layers"
 				if elems, isLit := sxSliceElems(lay, r.Mem); isLit {
 					bad := ""
-					for _, e := range elems {
-						if c19Invented(e) && !pushedBefore(p, r.NFacts, e) {
-							bad = sxDescribe(sxBase(e))
-						} else if !c19Invented(e) {
-							if _, isZero := e.(sxZero); !isZero {
-								if why, unk := sxUnknownIn(e); unk {
-									bad = "unevaluated element: " + why
-								}
+					for _, el := range elems {
+						if c19Invented(el) {
+							if !c19Present(p, r, el) {
+								bad = sxDescribe(sxBase(el))
 							}
+						} else if _, isZero := el.(sxZero); !isZero {
+							bad = "unclassified element " + sxDescribe(el)
 						}
 					}
 					if bad == "" {
-						agg.ok(key, P, in, "every placeholder layer was pushed before the manifest (identity up to the global it was copied from)")
+						agg.ok(key, P, in, "every placeholder layer was pushed (or found to exist) before the manifest — identity up to the value it was copied from")
 					} else {
 						agg.fail(key, P, in, p, "the manifest lists a placeholder layer ("+bad+") that was not pushed on this path (the result cannot be copied)")
 					}
@@ -1112,33 +1031,7 @@ func c19R4(c *Ctx, a *c19Anchors) {
 		}
 	}
 	agg.flush()
-	// pushIfNotExist skips only when the blob exists
-	BP := a.blobPusher
-	bn := FnName(BP)
-	agg = newC19Agg(c, R4)
-	for _, p := range a.paths(BP).Paths {
-		if p.Ret == nil || !sxSame(p.Ret[len(p.Ret)-1], sxNil) {
-			continue
-		}
-		key := bn + "|skips-only-when-present"
-		ok := len(p.CallsNamed(c19NPush)) > 0
-		for _, e := range p.Calls {
-			if strings.HasSuffix(e.Name, ").Exists") && p.ErrNil(-1, e) && sxSame(e.Args[len(e.Args)-1], sxParam{BP.Params[a.bpDesc]}) {
-				if v, known := p.Fact(-1, e.Result(0).key()); known && v {
-					ok = true
-				}
-			}
-		}
-		if ok {
-			agg.ok(key, BP, p.RetInstr, "every successful return has pushed, or Exists(desc) returned (true, nil)")
-		} else {
-			agg.fail(key, BP, p.RetInstr, p, "success is returned without pushing although the blob is not known to exist")
-		}
-	}
-	agg.flush()
 }
-
-func c19IsParam(v sxVal) bool { _, ok := v.(sxParam); return ok }
 
 // ---------- R5 ----------
 
@@ -1154,6 +1047,7 @@ func c19R5(c *Ctx, a *c19Anchors) {
 		c.LostAnchor(R5, "media type constants")
 		return
 	}
+	descT := c19DescType(c)
 	for _, P := range []*ssa.Function{a.v10, a.v11, a.rc2, a.artifact} {
 		pn := FnName(P)
 		opts, optsT := c19Opts(P)
@@ -1177,14 +1071,17 @@ func c19R5(c *Ctx, a *c19Anchors) {
 		cfgPtr, cfgDeref, _ := c19ConfigTerms(opts, optsT)
 		cfgAnn, _ := sxFieldByName(opts, optsT, "ConfigAnnotations")
 		for _, p := range res.Paths {
-			for _, r := range p.Calls {
-				if r.Callee != a.manifestPusher {
+			if c19Opaque(p, a) != "" {
+				continue
+			}
+			for _, e := range c19PushEvents(p) {
+				if e.kind != "manifest" {
 					continue
 				}
+				r := e.rec
 				in := r.Call.(ssa.Instruction)
-				m, mt := c19ManifestArg(a, r)
 				n := r.NFacts
-				field := func(name string) sxVal { v, _ := sxFieldByName(m, mt, name); return v }
+				field := func(name string) sxVal { v, _ := sxFieldNamed(e.manifest, name); return v }
 				check := func(what string, ok bool, okNote, bad string) {
 					key := pn + "|" + what
 					if ok {
@@ -1193,11 +1090,16 @@ func c19R5(c *Ctx, a *c19Anchors) {
 						agg.fail(key, P, in, p, bad)
 					}
 				}
+				var descMT sxVal
+				if b, ok := sxBase(e.desc).(sxCall); ok && b.rec.Name == c19NNewDesc {
+					descMT = b.rec.Args[0]
+				}
+				descAT, _ := sxFieldByName(e.desc, descT, "ArtifactType")
 				wantMT := imageMT
 				if P == a.artifact {
 					wantMT = artMT
 				}
-				check("mediaType", sxSame(field("MediaType"), sxStr(wantMT)) && sxSame(r.Args[a.mpMedia], sxStr(wantMT)),
+				check("mediaType", sxSame(field("MediaType"), sxStr(wantMT)) && sxSame(descMT, sxStr(wantMT)),
 					"manifest.MediaType and the descriptor media type are "+wantMT, "manifest.MediaType / the descriptor media type is not "+wantMT)
 				if P != a.v10 {
 					check("subject", reqSubject != nil && sxSame(field("Subject"), reqSubject), "manifest.Subject = opts.Subject",
@@ -1209,11 +1111,11 @@ func c19R5(c *Ctx, a *c19Anchors) {
 					lname = "Blobs"
 				}
 				lay := field(lname)
+				emptyKnown := p.IsEmptyString(n, reqLayers) || p.IsNil(n, reqLayers) // len(x)==0 / x==nil
 				switch {
 				case lay == nil:
-					check("layers", false, "", "manifest has no "+lname+" field")
+					check("layers", false, "", "the manifest has no "+lname+" set")
 				case sxSame(lay, reqLayers):
-					emptyKnown := p.IsEmptyString(n, reqLayers) || p.IsNil(n, reqLayers) // len(x)==0 / x==nil
 					if P == a.v11 && emptyKnown {
 						check("layers", false, "", "empty layers are not replaced by the empty-JSON layer in a 1.1 manifest")
 					} else {
@@ -1221,8 +1123,8 @@ func c19R5(c *Ctx, a *c19Anchors) {
 					}
 				default:
 					elems, isLit := sxSliceElems(lay, r.Mem)
-					_, isMake := lay.(sxOp)
-					emptyKnown := p.IsEmptyString(n, reqLayers) || p.IsNil(n, reqLayers)
+					op, isOp := lay.(sxOp)
+					isMake := isOp && strings.HasPrefix(op.op, "make:")
 					switch {
 					case P == a.v11 && isLit && len(elems) == 1 && c19IsEmptyJSON(elems[0]) && emptyKnown:
 						check("layers", true, "empty layers become the single empty-JSON layer", "")
@@ -1239,18 +1141,16 @@ func c19R5(c *Ctx, a *c19Anchors) {
 					case p.NonNil(n, cfgPtr):
 						check("config", sxSame(cfg, cfgDeref), "manifest.Config = *opts.ConfigDescriptor when given", "a given config descriptor is not what the manifest carries (got "+sxDescribe(cfg)+")")
 					case p.IsNil(n, cfgPtr) && P == a.v11:
-						an, _ := sxFieldByName(cfg, c19DescType(c), "Annotations")
+						an, _ := sxFieldByName(cfg, descT, "Annotations")
 						check("config", c19IsEmptyJSON(cfg) && sxSame(an, cfgAnn) && len(sxOverridden(cfg)) <= 1,
 							"without a config descriptor the empty-JSON config with opts.ConfigAnnotations is used", "the default config is not DescriptorEmptyJSON + ConfigAnnotations (got "+sxDescribe(cfg)+")")
 					case p.IsNil(n, cfgPtr):
-						cv, isCall := cfg.(sxCall)
-						okc := isCall && cv.rec.Callee == a.configPusher
-						if okc {
-							sIdx := c19ParamIndexByType(a.configPusher, isStringType)
-							mIdx := c19ParamIndexByType(a.configPusher, func(t types.Type) bool { _, ok := t.Underlying().(*types.Map); return ok })
-							mtArg := cv.rec.Args[sIdx]
+						okc := false
+						if b, isCall := sxBase(cfg).(sxCall); isCall && b.rec.Name == c19NNewDesc {
+							an, _ := sxFieldByName(cfg, descT, "Annotations")
 							wantDefault := p.IsEmptyString(n, art)
-							okc = sxSame(cv.rec.Args[mIdx], cfgAnn) && (wantDefault && sxSame(mtArg, sxStr(unkCfg)) || !wantDefault && sxSame(mtArg, art))
+							mtArg := b.rec.Args[0]
+							okc = sxSame(an, cfgAnn) && len(sxOverridden(cfg)) <= 1 && (wantDefault && sxSame(mtArg, sxStr(unkCfg)) || !wantDefault && sxSame(mtArg, art))
 						}
 						check("config", okc, "without a config descriptor a generated config of media type artifactType (default "+unkCfg+") with opts.ConfigAnnotations is used",
 							"the generated config does not carry artifactType / the default / ConfigAnnotations (got "+sxDescribe(cfg)+")")
@@ -1261,19 +1161,19 @@ func c19R5(c *Ctx, a *c19Anchors) {
 				// artifact type
 				switch P {
 				case a.v11:
-					check("artifactType", sxSame(field("ArtifactType"), art) && sxSame(r.Args[a.mpArtifact], art), "manifest.ArtifactType and descriptor.ArtifactType = artifactType",
+					check("artifactType", sxSame(field("ArtifactType"), art) && sxSame(descAT, art), "manifest.ArtifactType and descriptor.ArtifactType = artifactType",
 						"artifactType is not what the manifest / descriptor carry")
 				case a.artifact:
 					want := art
 					if p.IsEmptyString(n, art) {
 						want = sxStr(unkArt)
 					}
-					check("artifactType", sxSame(field("ArtifactType"), want) && sxSame(r.Args[a.mpArtifact], want), "manifest.ArtifactType = artifactType (default "+unkArt+")",
+					check("artifactType", sxSame(field("ArtifactType"), want) && sxSame(descAT, want), "manifest.ArtifactType = artifactType (default "+unkArt+")",
 						"artifactType (or its default) is not what the artifact manifest carries")
 				default:
-					cm, _ := sxFieldByName(field("Config"), c19DescType(c), "MediaType")
-					check("artifactType", sxSame(r.Args[a.mpArtifact], cm), "descriptor.ArtifactType = manifest.Config.MediaType",
-						"the descriptor's artifact type is not the config media type (got "+sxDescribe(r.Args[a.mpArtifact])+")")
+					cm, _ := sxFieldByName(field("Config"), descT, "MediaType")
+					check("artifactType", cm != nil && sxSame(descAT, cm), "descriptor.ArtifactType = manifest.Config.MediaType",
+						"the descriptor's artifact type is not the config media type (got "+sxDescribe(descAT)+")")
 				}
 			}
 		}
@@ -1300,103 +1200,90 @@ func c19IsEmptyJSON(d sxVal) bool {
 // ---------- R6 ----------
 
 // RFC 6838 §4.2:
-//   restricted-name = restricted-name-first *126restricted-name-chars
-//   restricted-name-first = ALPHA / DIGIT
-//   restricted-name-chars = ALPHA / DIGIT / "!" / "#" / "$" / "&" / "-" / "^" / "_" / "." / "+"
+//
+//	restricted-name = restricted-name-first *126restricted-name-chars
+//	restricted-name-first = ALPHA / DIGIT
+//	restricted-name-chars = ALPHA / DIGIT / "!" / "#" / "$" / "&" / "-" / "^" / "_" / "." / "+"
+//
 // media type = restricted-name "/" restricted-name  (type and subtype, each ≤127 chars)
 const c19RFC6838 = `\A(?:[[:alpha:]]|[[:digit:]])(?:[[:alpha:]]|[[:digit:]]|!|#|\$|&|\-|\^|_|\.|\+){0,126}` +
 	`/(?:[[:alpha:]]|[[:digit:]])(?:[[:alpha:]]|[[:digit:]]|!|#|\$|&|\-|\^|_|\.|\+){0,126}\z`
 
+// c19R6 finds the pattern variables the packers match artifactType /
+// config media type against (on the inlined paths) and decides their language.
 func c19R6(c *Ctx, a *c19Anchors) {
 	const R6 = "C19.R6.media-type-language"
-	c.Expect(R6, 2)
-	V := a.validator
-	vn := FnName(V)
+	c.Expect(R6, 1)
+	a.rfcPatterns = map[string]bool{}
 	if err := reSelfTest(); err != nil {
-		c.Undecided(R6, "engine-self-test", V.Pos(), err.Error())
+		c.Undecided(R6, "engine-self-test", a.v11.Pos(), err.Error())
 		return
 	}
-	gs := reGlobalsUsedBy(V)
-	if len(gs) != 1 {
-		c.LostAnchor(R6, vn+": the pattern variable it matches against")
-		return
-	}
-	// the validator accepts exactly the strings the pattern matches
-	ms := Calls(V, func(n string) bool { return n == "(*regexp.Regexp).MatchString" })
-	okUse := len(ms) == 1
-	if okUse {
-		okUse = SameValue(ms[0].Common().Args[1], V.Params[0])
-		te, _ := BoolTests(V, Aliases(ms[0].Value()))
-		if len(te) == 0 {
-			okUse = false
-		}
-		for _, at := range RetAtoms(V, 0) {
-			if ErrNilStatus(at.Val, 0) != NonNil && !AtomMustPass(at, newCut().Edges(te...)) {
-				okUse = false
-			}
-		}
-		for _, r := range Returns(V) {
-			_ = r
-		}
-		// and on the match edge nil is returned: no non-nil return reachable from the true edges
-		for _, e := range te {
-			if bad := c19NonNilReturnFrom(V, e); bad {
-				okUse = false
-			}
-		}
-	}
-	c.Check(R6, vn+"|accepts-iff-match", V.Pos(), okUse, ifelse(okUse, "the validator returns nil exactly on the true edge of pattern.MatchString(mediaType)",
-		"the validator does not return nil exactly when the pattern matches its parameter"))
-	src, err := reGlobalSource(gs[0], 0)
-	if err != nil {
-		c.Undecided(R6, vn+"|pattern≡RFC6838", V.Pos(), "cannot obtain the pattern text: "+err.Error())
-		return
-	}
-	l, err := reParse(src.Src, src.Flags)
-	if err != nil {
-		c.Violation(R6, vn+"|pattern≡RFC6838", src.Pos, "the pattern does not compile: "+err.Error())
-		return
-	}
-	eq, w, inRepo, err := reEquivalent(l, reMust(c19RFC6838))
-	switch {
-	case err != nil:
-		c.Undecided(R6, vn+"|pattern≡RFC6838", src.Pos, err.Error())
-	case eq:
-		c.OK(R6, vn+"|pattern≡RFC6838", src.Pos, "L("+src.Src+") = RFC 6838 restricted-name \"/\" restricted-name (automata equivalence)")
-	case inRepo:
-		c.Violation(R6, vn+"|pattern≡RFC6838", src.Pos, fmt.Sprintf("the media type pattern accepts %q, which RFC 6838 §4.2 does not allow", w))
-	default:
-		c.Violation(R6, vn+"|pattern≡RFC6838", src.Pos, fmt.Sprintf("the media type pattern rejects %q, which RFC 6838 §4.2 allows", w))
-	}
-}
-
-// c19NonNilReturnFrom: a Return with a possibly non-nil error is reachable
-// from edge e.
-func c19NonNilReturnFrom(fn *ssa.Function, e Edge) bool {
-	idx := ErrResultIndex(fn.Signature)
-	for _, at := range RetAtoms(fn, idx) {
-		if ErrNilStatus(at.Val, 0) == IsNil {
+	found := map[string]bool{}
+	var order []*reSource
+	for _, P := range []*ssa.Function{a.v10, a.v11} {
+		opts, optsT := c19Opts(P)
+		art := c19StringParam(P)
+		if opts == nil || art == nil {
 			continue
 		}
-		// is this atom's return reachable from e.To without leaving through… (plain reachability)
-		if reach(e.To, 0, at.Ret, nil) {
-			if len(at.Edges) == 0 {
-				return true
-			}
-			// the phi edge must itself be reachable from e
-			inner := at.Edges[len(at.Edges)-1]
-			if inner.From == e.To || reach(e.To, 0, inner.From.Instrs[len(inner.From.Instrs)-1], nil) || inner == e {
-				return true
+		_, _, cfgMedia := c19ConfigTerms(opts, optsT)
+		res := a.paths(P)
+		for _, p := range res.Paths {
+			for _, x := range []sxVal{art, cfgMedia} {
+				if x == nil {
+					continue
+				}
+				calls, srcs := c19PatternCalls(p, x)
+				for i, src := range srcs {
+					if src == nil {
+						c.Undecided(R6, FnName(P)+"|pattern", calls[i].Call.Pos(), "the media type is matched against a pattern whose text cannot be resolved: "+sxDescribe(calls[i].Args[0]))
+						return
+					}
+					if k := c19PatternKey(src); !found[k] {
+						found[k] = true
+						order = append(order, src)
+					}
+				}
 			}
 		}
 	}
-	return false
+	if len(order) == 0 {
+		c.LostAnchor(R6, "no (*regexp.Regexp).MatchString of artifactType / opts.ConfigDescriptor.MediaType on any path of the 1.0/1.1 packers")
+		return
+	}
+	for i, src := range order {
+		key := "media-type-pattern|pattern≡RFC6838"
+		if i > 0 {
+			key = fmt.Sprintf("media-type-pattern#%d|pattern≡RFC6838", i+1)
+		}
+		l, err := reParse(src.Src, src.Flags)
+		if err != nil {
+			c.Violation(R6, key, src.Pos, "the pattern does not compile: "+err.Error())
+			continue
+		}
+		eq, w, inRepo, err := reEquivalent(l, reMust(c19RFC6838))
+		switch {
+		case err != nil:
+			c.Undecided(R6, key, src.Pos, err.Error())
+		case eq:
+			a.rfcPatterns[c19PatternKey(src)] = true
+			c.OK(R6, key, src.Pos, "L("+src.Src+") = RFC 6838 restricted-name \"/\" restricted-name (automata equivalence)")
+		case inRepo:
+			c.Violation(R6, key, src.Pos, fmt.Sprintf("the media type pattern accepts %q, which RFC 6838 §4.2 does not allow", w))
+		default:
+			c.Violation(R6, key, src.Pos, fmt.Sprintf("the media type pattern rejects %q, which RFC 6838 §4.2 allows", w))
+		}
+	}
 }
 
 var c19Mutants = []Mutant{
 	{Name: "v11-config-mediatype-not-validated", File: "pack.go",
 		Old: "\t\tif err := validateMediaType(opts.ConfigDescriptor.MediaType); err != nil {\n\t\t\treturn ocispec.Descriptor{}, fmt.Errorf(\"invalid config mediaType format: %w\", err)\n\t\t}\n\t\tconfigDesc = *opts.ConfigDescriptor\n\t} else {\n\t\t// use the empty descriptor for config",
 		New: "\t\tconfigDesc = *opts.ConfigDescriptor\n\t} else {\n\t\t// use the empty descriptor for config", Expect: "C19.R1"},
+	{Name: "v11-artifacttype-validated-after-config-push", File: "pack.go",
+		Old: "\tif artifactType != \"\" {\n\t\tif err := validateMediaType(artifactType); err != nil {\n\t\t\treturn ocispec.Descriptor{}, fmt.Errorf(\"invalid artifactType format: %w\", err)\n\t\t}\n\t}\n\n\t// prepare config\n\tvar emptyBlobExists bool\n\tvar configDesc ocispec.Descriptor\n\tif opts.ConfigDescriptor != nil {\n\t\tif err := validateMediaType(opts.ConfigDescriptor.MediaType); err != nil {\n\t\t\treturn ocispec.Descriptor{}, fmt.Errorf(\"invalid config mediaType format: %w\", err)\n\t\t}\n\t\tconfigDesc = *opts.ConfigDescriptor\n\t} else {\n\t\t// use the empty descriptor for config\n\t\tconfigDesc = ocispec.DescriptorEmptyJSON\n\t\tconfigDesc.Annotations = opts.ConfigAnnotations\n\t\tconfigBytes := ocispec.DescriptorEmptyJSON.Data\n\t\t// push config\n\t\tif err := pushIfNotExist(ctx, pusher, configDesc, configBytes); err != nil {\n\t\t\treturn ocispec.Descriptor{}, fmt.Errorf(\"failed to push config: %w\", err)\n\t\t}\n\t\temptyBlobExists = true\n\t}\n",
+		New: "\n\t// prepare config\n\tvar emptyBlobExists bool\n\tvar configDesc ocispec.Descriptor\n\tif opts.ConfigDescriptor != nil {\n\t\tif err := validateMediaType(opts.ConfigDescriptor.MediaType); err != nil {\n\t\t\treturn ocispec.Descriptor{}, fmt.Errorf(\"invalid config mediaType format: %w\", err)\n\t\t}\n\t\tconfigDesc = *opts.ConfigDescriptor\n\t} else {\n\t\t// use the empty descriptor for config\n\t\tconfigDesc = ocispec.DescriptorEmptyJSON\n\t\tconfigDesc.Annotations = opts.ConfigAnnotations\n\t\tconfigBytes := ocispec.DescriptorEmptyJSON.Data\n\t\t// push config\n\t\tif err := pushIfNotExist(ctx, pusher, configDesc, configBytes); err != nil {\n\t\t\treturn ocispec.Descriptor{}, fmt.Errorf(\"failed to push config: %w\", err)\n\t\t}\n\t\temptyBlobExists = true\n\t}\n\tif artifactType != \"\" {\n\t\tif err := validateMediaType(artifactType); err != nil {\n\t\t\treturn ocispec.Descriptor{}, fmt.Errorf(\"invalid artifactType format: %w\", err)\n\t\t}\n\t}\n", Expect: "C19.R1"},
 	{Name: "v10-validates-the-default-instead", File: "pack.go",
 		Old: "\t\t} else if err := validateMediaType(artifactType); err != nil {", New: "\t\t} else if err := validateMediaType(MediaTypeUnknownConfig); err != nil {", Expect: "C19.R1"},
 	{Name: "v11-artifacttype-validation-error-ignored", File: "pack.go",
@@ -1425,6 +1312,9 @@ var c19Mutants = []Mutant{
 		New: "\tif err := pushIfNotExist(ctx, pusher, configDesc, []byte{}); err != nil {\n\t\treturn ocispec.Descriptor{}, fmt.Errorf(\"failed to push config: %w\", err)\n\t}\n\treturn configDesc, nil", Expect: "C19.R3"},
 	{Name: "manifest-push-error-swallowed", File: "pack.go",
 		Old: "\tif err := pusher.Push(ctx, manifestDesc, bytes.NewReader(manifestJSON)); err != nil && !errors.Is(err, errdef.ErrAlreadyExists) {", New: "\tif err := pusher.Push(ctx, manifestDesc, bytes.NewReader(manifestJSON)); err != nil && !errors.Is(err, errdef.ErrAlreadyExists) && !errors.Is(err, errdef.ErrUnsupported) {", Expect: "C19.R3"},
+	{Name: "existence-check-error-ignored", File: "pack.go",
+		Old: "\t\texists, err := ros.Exists(ctx, desc)\n\t\tif err != nil {\n\t\t\treturn fmt.Errorf(\"failed to check existence: %s: %s: %w\", desc.Digest.String(), desc.MediaType, err)\n\t\t}\n",
+		New: "\t\texists, _ := ros.Exists(ctx, desc)\n", Expect: "C19.R3"},
 	{Name: "manifest-size-overwritten", File: "pack.go",
 		Old: "\tmanifestDesc.ArtifactType = artifactType\n", New: "\tmanifestDesc.ArtifactType = artifactType\n\tmanifestDesc.Size = int64(len(mediaType))\n", Expect: "C19.R3"},
 	{Name: "empty-layer-never-pushed", File: "pack.go",
@@ -1449,7 +1339,7 @@ var c19Mutants = []Mutant{
 	{Name: "media-type-allows-star", File: "pack.go",
 		Old: "/[A-Za-z0-9][A-Za-z0-9!#$&^_.+-]{0,126}$", New: "/[A-Za-z0-9][A-Za-z0-9!#$&^_.+*-]{0,126}$", Expect: "C19.R6"},
 	{Name: "validator-accepts-empty", File: "pack.go",
-		Old: "\tif !mediaTypeRegexp.MatchString(mediaType) {", New: "\tif !mediaTypeRegexp.MatchString(mediaType) && mediaType != \"\" {", Expect: "C19.R6"},
+		Old: "\tif !mediaTypeRegexp.MatchString(mediaType) {", New: "\tif !mediaTypeRegexp.MatchString(mediaType) && mediaType != \"\" {", Expect: "C19.R1"},
 	{Name: "validator-inverted", File: "pack.go",
-		Old: "\tif !mediaTypeRegexp.MatchString(mediaType) {", New: "\tif mediaTypeRegexp.MatchString(mediaType) && len(mediaType) > 255 {", Expect: "C19.R6"},
+		Old: "\tif !mediaTypeRegexp.MatchString(mediaType) {", New: "\tif mediaTypeRegexp.MatchString(mediaType) && len(mediaType) > 255 {", Expect: "C19.R1"},
 }
